@@ -91,6 +91,11 @@ type resultJ struct {
 	ShutErr   string `json:"shut_err,omitempty"`
 }
 
+// sdkTimeout: every timeout a stock component can be given (export / flush / collect). Far longer than the
+// child watchdog, so that under starvation the watchdog (inconclusive, re-run) fires and never an SDK
+// timeout that would surface as a context error on a live-context call.
+const sdkTimeout = 30 * time.Minute
+
 // ---- child side ----
 
 type recorder struct {
@@ -223,7 +228,7 @@ func mkSpanProc(id int, kind string, rec *recorder, out *syncBuf) *countProc {
 	case strings.HasPrefix(kind, "PSimple"):
 		inner = sdktrace.NewSimpleSpanProcessor(exp)
 	case strings.HasPrefix(kind, "PBatch"):
-		inner = sdktrace.NewBatchSpanProcessor(exp, sdktrace.WithBatchTimeout(time.Hour), sdktrace.WithExportTimeout(time.Minute))
+		inner = sdktrace.NewBatchSpanProcessor(exp, sdktrace.WithBatchTimeout(time.Hour), sdktrace.WithExportTimeout(sdkTimeout))
 	}
 	return &countProc{id: id, inner: inner, rec: rec}
 }
@@ -314,9 +319,9 @@ func childMetric(sc scenario) resultJ {
 			r = sdkmetric.NewManualReader()
 		case "RPeriodic XStd":
 			e, _ := stdoutmetric.New(stdoutmetric.WithWriter(out))
-			r = sdkmetric.NewPeriodicReader(&countMetricExp{i, e, rec}, sdkmetric.WithInterval(time.Hour), sdkmetric.WithTimeout(time.Minute))
+			r = sdkmetric.NewPeriodicReader(&countMetricExp{i, e, rec}, sdkmetric.WithInterval(time.Hour), sdkmetric.WithTimeout(sdkTimeout))
 		default: // RPeriodic XNil
-			r = sdkmetric.NewPeriodicReader(nil, sdkmetric.WithInterval(time.Hour), sdkmetric.WithTimeout(time.Minute))
+			r = sdkmetric.NewPeriodicReader(nil, sdkmetric.WithInterval(time.Hour), sdkmetric.WithTimeout(sdkTimeout))
 		}
 		readers = append(readers, r)
 		opts = append(opts, sdkmetric.WithReader(r))
@@ -405,7 +410,7 @@ func childLog(sc scenario) resultJ {
 		if strings.HasPrefix(k, "LSimple") {
 			inner = sdklog.NewSimpleProcessor(exp)
 		} else {
-			inner = sdklog.NewBatchProcessor(exp, sdklog.WithExportInterval(time.Hour), sdklog.WithExportTimeout(time.Minute))
+			inner = sdklog.NewBatchProcessor(exp, sdklog.WithExportInterval(time.Hour), sdklog.WithExportTimeout(sdkTimeout))
 		}
 		opts = append(opts, sdklog.WithProcessor(&countLogProc{i, inner, rec}))
 	}
@@ -556,7 +561,7 @@ func buildLog(kinds []string, rec *recorder, out *syncBuf) *sdklog.LoggerProvide
 		if strings.HasPrefix(k, "LSimple") {
 			inner = sdklog.NewSimpleProcessor(exp)
 		} else {
-			inner = sdklog.NewBatchProcessor(exp, sdklog.WithExportInterval(time.Hour), sdklog.WithExportTimeout(time.Minute))
+			inner = sdklog.NewBatchProcessor(exp, sdklog.WithExportInterval(time.Hour), sdklog.WithExportTimeout(sdkTimeout))
 		}
 		opts = append(opts, sdklog.WithProcessor(&countLogProc{i, inner, rec}))
 	}
@@ -573,9 +578,9 @@ func buildMetric(kinds []string, rec *recorder, out *syncBuf) (*sdkmetric.MeterP
 			r = sdkmetric.NewManualReader()
 		case "RPeriodic XStd":
 			e, _ := stdoutmetric.New(stdoutmetric.WithWriter(out))
-			r = sdkmetric.NewPeriodicReader(&countMetricExp{i, e, rec}, sdkmetric.WithInterval(time.Hour), sdkmetric.WithTimeout(time.Minute))
+			r = sdkmetric.NewPeriodicReader(&countMetricExp{i, e, rec}, sdkmetric.WithInterval(time.Hour), sdkmetric.WithTimeout(sdkTimeout))
 		default: // RPeriodic XNil
-			r = sdkmetric.NewPeriodicReader(nil, sdkmetric.WithInterval(time.Hour), sdkmetric.WithTimeout(time.Minute))
+			r = sdkmetric.NewPeriodicReader(nil, sdkmetric.WithInterval(time.Hour), sdkmetric.WithTimeout(sdkTimeout))
 		}
 		readers = append(readers, r)
 		opts = append(opts, sdkmetric.WithReader(r))
@@ -763,9 +768,11 @@ type outcome struct {
 	log     string
 }
 
-func runChild(sc scenario) outcome {
+func runChild(sc scenario) outcome { return runChildT(sc, 90*time.Second) }
+
+func runChildT(sc scenario, d time.Duration) outcome {
 	in, _ := json.Marshal(sc)
-	ctx, cancel := context.WithTimeout(context.Background(), 90*time.Second)
+	ctx, cancel := context.WithTimeout(context.Background(), d)
 	defer cancel()
 	cmd := exec.CommandContext(ctx, os.Args[0], "-child", "-out", "unused")
 	cmd.Stdin = bytes.NewReader(in)
@@ -791,6 +798,26 @@ func runChild(sc scenario) outcome {
 		o.log = "panic: " + o.res.Panic + "\n" + o.log
 	}
 	return o
+}
+
+// liveCtx: does the operation pass a live (not cancelled) context? Start/End/Reg/Unreg/Add/Emit/Collect always do.
+func liveCtx(kind string, o opJ) bool {
+	switch o.K {
+	case "flush", "shutdown":
+		return o.B
+	}
+	return true
+}
+
+// machineIdle: 1-minute load average below half the number of CPUs.
+func machineIdle() bool {
+	b, err := os.ReadFile("/proc/loadavg")
+	if err != nil {
+		return true
+	}
+	var l1 float64
+	fmt.Sscan(string(b), &l1)
+	return l1 < float64(runtime.NumCPU())/2
 }
 
 func tailStr(s string, n int) string {
@@ -1102,6 +1129,46 @@ func main() {
 	pool(6, func(sc scenario) bool { return !spinning(sc) })
 	pool(2, spinning) // these children spin on 3-8 cores each: two at a time
 
+	// A child that exceeded its watchdog, or a call made with a live context that came back with a
+	// context error (only an SDK-internal timeout under starvation can do that), is INCONCLUSIVE: the
+	// scenario is re-run alone, with a longer watchdog, up to twice. Still inconclusive: a hang on an
+	// idle machine is reported (Stuck), anything else is dropped from the verdict and counted.
+	inconclusive := func(i int) string {
+		if outs[i].hung {
+			return "watchdog"
+		}
+		if outs[i].crashed {
+			return ""
+		}
+		for j, ob := range outs[i].res.Obs {
+			if j < len(scs[i].Ops) && ob.Err == "ECtx" && liveCtx(scs[i].Kind, scs[i].Ops[j]) {
+				return "context error on a live-context call"
+			}
+		}
+		return ""
+	}
+	dropped := map[int]string{}
+	retried := 0
+	retryBudget := time.Duration(o.Count(150, 900)) * time.Second // total time spent on re-runs
+	retryStart := time.Now()
+	for i := range scs {
+		why := inconclusive(i)
+		for attempt := 0; why != "" && attempt < 2 && time.Since(retryStart) < retryBudget; attempt++ {
+			retried++
+			outs[i] = runChildT(scs[i], 3*time.Minute)
+			why = inconclusive(i)
+		}
+		if why == "" {
+			continue
+		}
+		if why == "watchdog" && machineIdle() {
+			continue // a genuine hang: reported below as a direct violation
+		}
+		dropped[i] = why
+	}
+	w.Extra["inconclusive"] = len(dropped)
+	w.Extra["retried_runs"] = retried
+
 	for i, sc := range scs {
 		oc := outs[i]
 		kind := sc.Kind
@@ -1116,8 +1183,12 @@ func main() {
 			}
 		}
 		w.Tally(fmt.Sprintf("%s:ops=%d", sc.Kind, len(sc.Ops)/8*8))
+		if why, ok := dropped[i]; ok {
+			w.Tally("inconclusive:" + why)
+			continue
+		}
 		if oc.hung {
-			w.Violation("child process running the sequence hung (no result within 90 s)", desc)
+			w.Violation("Stuck: child process running the sequence hung (no result within its watchdog, re-run twice alone on an idle machine)", desc)
 			continue
 		}
 		if oc.crashed {
